@@ -85,6 +85,29 @@ theorem filehandle_roundtrip (h : Nat) (rest : Bytes) (h64 : h < 184467440737095
 theorem filehandle_consumes {bs r : Bytes} {h : Nat} (hd : decFh Gen.fhMax Gen.fhLen bs = some (h, r)) :
     bs.length = r.length + 12 := (decFh_consumes hd).1
 
+/-- a refused file handle keeps the stream in sync: a complete XDR opaque of any wrong size up to the limit is
+    skipped together with its padding (what follows it is what the next decoder sees), an over-limit length is
+    refused with nothing more read -/
+theorem refused_filehandle_keeps_sync (data rest : Bytes) (hl : data.length ≤ Gen.fhMax) (hne : data.length ≠ Gen.fhLen) :
+    decFh Gen.fhMax Gen.fhLen (encOpaque data ++ rest) = none ∧
+    decFhRest Gen.fhMax Gen.fhLen (encOpaque data ++ rest) = rest := by
+  have h64 : Gen.fhMax = 64 := by decide
+  have h32 : data.length < 4294967296 := by omega
+  unfold decFh decFhRest encOpaque
+  simp only [List.append_assoc]
+  rw [decU32_encU32 _ h32]
+  simp only
+  rw [if_neg (by omega), if_pos hne, if_neg (by omega), if_pos hne]
+  refine ⟨rfl, ?_⟩
+  split
+  · rw [pad4_round, ← List.append_assoc, List.drop_left' (by simp)]
+  · have : data = [] := by
+      cases data with
+      | nil => rfl
+      | cons _ _ => simp at *
+    subst this
+    simp [pad4, zeros]
+
 theorem filehandle_allocs_bounded (bs : Bytes) :
     ∀ a ∈ decFhAllocs Gen.fhMax Gen.fhLen bs, a ≤ Gen.fhMax + 3 := decFhAllocs_bounded _ _ bs
 
